@@ -11,7 +11,7 @@ LEVEL = "exploration"
 FLAVORS = ["asan"]
 RULE = ("12-tick histories over 3-5 cgroups (usage, file/anon split, memory.min/high/max, swap limits and usage up a two-level hierarchy, "
         "`some` pressure averages and growing totals), every senpai argument randomised, both modes, with/without memory.reclaim and "
-        "memory.high.tmp, cgroups removed / re-created between ticks and removed between two file accesses of a tick (incl. the first, probing tick), limits changed behind senpai's back, senpai's own writes failing (EAGAIN/EBUSY/EINTR/short); every write(2) of the plugin "
+        "memory.high.tmp, cgroups removed / re-created between ticks and removed between two file accesses of a tick (incl. the first, probing tick), limits changed behind senpai's back, senpai's own writes failing (EAGAIN/EBUSY/EINTR/short), timed pokes (memory_high_timeout_ms: helper thread, writer blocked in reclaim until SIGUSR1); every write(2) of the plugin "
         "is checked: target file in {memory.high, memory.high.tmp, memory.reclaim} of a cgroup matched by `cgroup` (or vm.swappiness when "
         "modulate_swappiness, restored by the last write of the tick); classic mode: value == memory.current (start/restart) or 4 KiB "
         "aligned, > floor-4096 and <= ceiling unless floor > ceiling; the first write to a new incarnation is a start value; immediate "
@@ -138,6 +138,14 @@ def cases(seed, tier):
                 fn = "memory.reclaim" if reclaim else ("memory.high.tmp" if tmp else "memory.high")
             scn["write_faults"] = [dict(file=fn, **rng.choice([{"errno": "EAGAIN"}, {"errno": "EBUSY"}, {"errno": "EINTR", "count": 2},
                                                                {"errno": "EAGAIN", "count": 3}, {"short": True}]))]
+        if immediate and not reclaim and rng.random() < 0.5:
+            # the poke goes through the timed write (helper thread + SIGUSR1 after memory_high_timeout_ms); in a third of these
+            # the kernel really blocks the writer in reclaim, so the write is cut short by the signal - the limit is in effect
+            # all the same and has to be reset to max within the tick. Real clock: the wait is a real condition-variable wait.
+            args["memory_high_timeout_ms"] = str(rng.choice([5, 20, 60]))
+            scn["vclock"] = False
+            if rng.random() < 0.35 and "write_faults" not in scn:
+                scn["write_faults"] = [{"file": "memory.high.tmp" if tmp else "memory.high", "block": True, "count": rng.choice([1, 1, 2, 3])}]
         if vanish:
             scn["access_faults"] = [{"tick": vanish["tick"], "k": vanish["k"], "ops": [{"op": "rm", "cg": vanish["cg"]}]}]
         yield core.Case(cid, [scn], {"args": args, "immediate": immediate, "tmp": tmp, "reclaim": reclaim, "vanish": vanish})
@@ -229,6 +237,8 @@ def judge(case, results):
             if rel not in matched:
                 v.bad("write-unmatched-cgroup", fn, "tick %d: wrote %s of %s, which `cgroup=%s` does not match (%s)" % (ti, fn, rel, args["cgroup"], sorted(matched)))
                 continue
+            if e.get("blocked"):
+                v.count("writes_blocked_until_signal")
             if "fault" in e:
                 v.count("failed_writes")
                 continue  # the write did not take effect; nothing to judge about its value
